@@ -348,11 +348,15 @@ def _visit_pairs(kind: int, inst: int, t1: int, a1: int, t2: int, a2: int) -> bo
     """
     K = pick(kind, KINDS)
     J = concrete_int(inst, 0, MAX_INST - 1)
-    T1, T2 = concrete_int(t1, 0, 10), concrete_int(t2, 1, 11)
-    A1, A2 = concrete_int(a1, 1, 3), concrete_int(a2, 1, 3)
     with untraced():
         if J >= len(_INST[K]):
             return result(True, False)
+        nk = len([c for c in children_of(get_instance(K, J)) if not known.c18_unvisited_slot(K, c[0])])
+    if t2 >= nk:
+        return result(True, False)          # one symbolic comparison instead of enumerating positions that do not exist
+    T1, T2 = concrete_int(t1, 0, 10), concrete_int(t2, 1, 11)
+    A1, A2 = concrete_int(a1, 1, 3), concrete_int(a2, 1, 3)
+    with untraced():
         ok, nkids = run_plan(K, J, [(T1, A1), (T2, A2)])
         if ok is None:
             return result(True, False)
